@@ -178,10 +178,22 @@ func CallMethod(obj interface{}, methodName string, args ...interface{}) (interf
 			methodName, methodType.NumIn(), len(args))
 	}
 
-	// Prepare arguments
+	// Prepare arguments. reflect.Call panics on a null (zero Value) argument
+	// and on an argument whose type is not assignable to the parameter, so
+	// both are turned into errors here, like a wrong argument count above.
 	methodArgs := make([]reflect.Value, len(args))
 	for i, arg := range args {
-		methodArgs[i] = reflect.ValueOf(arg)
+		var paramType reflect.Type
+		if methodType.IsVariadic() && i >= methodType.NumIn()-1 {
+			paramType = methodType.In(methodType.NumIn() - 1).Elem()
+		} else {
+			paramType = methodType.In(i)
+		}
+		argValue, err := adaptArgument(arg, paramType)
+		if err != nil {
+			return nil, fmt.Errorf("method %s: argument %d: %v", methodName, i+1, err)
+		}
+		methodArgs[i] = argValue
 	}
 
 	// Call the method
@@ -207,6 +219,53 @@ func CallMethod(obj interface{}, methodName string, args ...interface{}) (interf
 
 	// Return the first result
 	return results[0].Interface(), nil
+}
+
+// adaptArgument converts a GlyphLang value into a reflect.Value that can be
+// passed for a parameter of the given type, or explains why it cannot.
+func adaptArgument(arg interface{}, paramType reflect.Type) (reflect.Value, error) {
+	if arg == nil {
+		// only an untyped (interface) parameter can take null: a nil map,
+		// slice or pointer would move the crash into the provider
+		if paramType.Kind() == reflect.Interface {
+			return reflect.Zero(paramType), nil
+		}
+		return reflect.Value{}, fmt.Errorf("null is not a valid %s", paramType)
+	}
+	value := reflect.ValueOf(arg)
+	if value.Type().AssignableTo(paramType) {
+		return value, nil
+	}
+	// numbers convert between Go's numeric types when nothing is lost
+	if isNumericKind(value.Kind()) && isNumericKind(paramType.Kind()) && value.Type().ConvertibleTo(paramType) {
+		converted := value.Convert(paramType)
+		if converted.Type().ConvertibleTo(value.Type()) && converted.Convert(value.Type()).Interface() == arg {
+			return converted, nil
+		}
+	}
+	// []interface{} of objects for a []map[string]interface{} parameter
+	if items, ok := arg.([]interface{}); ok && paramType.Kind() == reflect.Slice {
+		out := reflect.MakeSlice(paramType, 0, len(items))
+		for idx, item := range items {
+			elem, err := adaptArgument(item, paramType.Elem())
+			if err != nil {
+				return reflect.Value{}, fmt.Errorf("element %d: %v", idx, err)
+			}
+			out = reflect.Append(out, elem)
+		}
+		return out, nil
+	}
+	return reflect.Value{}, fmt.Errorf("expected %s, got %s", paramType, value.Type())
+}
+
+func isNumericKind(k reflect.Kind) bool {
+	switch k {
+	case reflect.Int, reflect.Int8, reflect.Int16, reflect.Int32, reflect.Int64,
+		reflect.Uint, reflect.Uint8, reflect.Uint16, reflect.Uint32, reflect.Uint64,
+		reflect.Float32, reflect.Float64:
+		return true
+	}
+	return false
 }
 
 // canonicalMethodName maps a called name to its whitelisted Go spelling.
